@@ -1436,16 +1436,18 @@ Proof.
   destruct lft; cbn [rev app fst]; apply lookup_put_list_nil.
 Qed.
 
-(* LPOP / RPOP key count, count >= length *)
+(* LPOP / RPOP key count, count >= length (a stored list is not empty; count 0 takes nothing) *)
 Theorem C06_gone_pop_count : forall lft now d k e l c n,
-  lookup now d k = Some e -> e_val e = VList l ->
+  lookup now d k = Some e -> e_val e = VList l -> l <> [] ->
   parse_i64 c = Some n -> Zlen l <= n ->
   lookup now (fst (cmd_pop lft now d [k; c])) k = None.
 Proof.
-  intros lft now d k e l c n Hl Hv Hc Hn. unfold cmd_pop. rewrite Hc.
+  intros lft now d k e l c n Hl Hv Hne Hc Hn. unfold cmd_pop. rewrite Hc.
   pose proof (Zlen_nonneg l) as H0.
+  assert (Hpos : 0 < Zlen l) by (destruct l; [congruence|rewrite Zlen_cons; pose proof (Zlen_nonneg l); lia]).
   destruct (n <? 0) eqn:E; [apply Z.ltb_lt in E; lia|].
   rewrite (get_list_of_lookup now d k e l Hl Hv).
+  destruct (n =? 0) eqn:E0; [apply Z.eqb_eq in E0; lia|].
   assert (Hm : Z.to_nat (Z.min n (Zlen l)) = length l).
   { rewrite Z.min_r by lia. unfold Zlen. apply Nat2Z.id. }
   rewrite Hm. destruct lft; cbn [fst].
